@@ -11,7 +11,8 @@ TUS = ['functions', 'instance', 'value', 'interp', 'script', 'dbginterp', 'dbgsc
 SHIMS = ['maintap']
 NATIVE = True
 NATIVE_TUS = build.ALL_NATIVE + ['instance', 'functions', 'kerl']
-FUNCTIONS = ['main() of tap.cpp (argument handling, script parsing, TapLeaf/TapBranch construction, pairing loop and leftover handling, merge loop, TapBranch::Prove, TapTweak, parity into the control byte, bech32m address)',
+FUNCTIONS = ['main() of tap.cpp (argument handling, script parsing, TapLeaf/TapBranch construction, pairing loop and leftover handling, merge loop, TapBranch::Prove, TapTweak, parity into the control byte, bech32m address, witness insertion with --tx/--txin/--sig, sighash report)',
+             'Instance::parse_transaction / parse_input_transaction / configure_tx_txin / calc_sighash', 'SignatureHashSchnorr', 'PrecomputedTransactionData::Init',
              'TapLeaf::TapLeaf', 'TapBranch::TapBranch', 'TapBranch::Prove', 'Value::do_bech32menc', 'bech32::Encode', 'ConvertBits<8,5>', 'HashWriter / TaggedHash']
 ASSUMPTIONS = ['secp256k1_xonly_pubkey_parse is an uninterpreted predicate; secp256k1_xonly_pubkey_tweak_add records the tweak it is given and returns a fixed opaque point (each parity is a separate obligation); secp256k1_ec_pubkey_serialize serialises that point; ECC_Start/ECC_Stop stubbed', 'leaf script payloads become symbolic at the entry of TapLeaf::TapLeaf (argv itself is concrete), so leaf and branch hashes are unconstrained and every sort order at every branch is explored',
                'SHA-256 compression uninterpreted on symbolic input', 'process environment modelled (getopt_long, ttys, printf capture); stdout and stderr are terminals so that the control object is logged',
